@@ -576,6 +576,17 @@ where
                         .with_context(|| format!("blob {} dump failed", blob.name())),
                 )
             }
+            // A closed blob that got a deletion marker after its index was written waits for a deferred re-dump.
+            // Do it now: otherwise the marker's bytes stay un-synced and the index is regenerated at the next start
+            let mut blobs = safe.blobs.write().await;
+            for blob in blobs.iter_mut() {
+                res = res.and(
+                    blob.dump()
+                        .await
+                        .map(|_| ())
+                        .with_context(|| format!("blob {} dump failed", blob.name())),
+                )
+            }
         };
 
         // Wait for observer worker shutdown. Locks should be released at this point
